@@ -17,6 +17,14 @@ import (
 
 func init() { props["C07"] = runC07 }
 
+// items of the long batches: statements that exercise every counter the parser keeps while it parses (negations,
+// nested parentheses, sub-queries, CTEs, CASE, calls)
+var longBatchItems = []string{
+	"SELECT a FROM t WHERE NOT closed AND NOT (b = 1)", "SELECT a FROM t WHERE ((((a = 1))))", "SELECT (SELECT (SELECT 1))", "WITH c AS (SELECT 1) SELECT * FROM c",
+	"SELECT CASE WHEN a THEN CASE WHEN b THEN 1 END END FROM t", "SELECT f(g(h(1))) FROM t", "SELECT a FROM t WHERE a IN (SELECT b FROM u WHERE NOT EXISTS (SELECT 1))",
+	"SELECT a FROM t WHERE NOT NOT NOT a", "SELECT a FROM t WHERE MATCH(a) AGAINST ('x')", "SELECT a[1][2] FROM t",
+}
+
 // loopsCase: tokens of one input with the oracle table of the real parseStatement at every position
 type loopsCase struct {
 	toks   []token.Token
@@ -146,7 +154,8 @@ func hasNonSemicolonToken(toks []token.Token) bool {
 func c07Inputs(c *runCtx, n int) []string {
 	inputs := append([]string{}, builtinCorpus...)
 	inputs = append(inputs, lexicalGarbage...)
-	inputs = append(inputs, "SELECT a FROM t LIMIT 5, 10", "SELECT a FROM t LIMIT 10 OFFSET 5;", "SELECT `a` FROM `t`", ";; SELECT 1", "SELECT 1;;", "; SELECT 1 ; ; SELECT 2 ;", "SELECT 1 SELECT 2", "SELECT a FROM t; garbage here; SELECT b FROM u",
+	inputs = append(inputs, "\uFEFFSELECT a FROM t", "\uFEFFSELECT FROM WHERE", "\uFEFF", "\u00a0SELECT 1", "\u200bSELECT 1", "\x00SELECT 1", "\r\nSELECT 1\r\n", "\tSELECT\t1\t", "\ufeff\ufeffSELECT 1",
+		"SELECT a FROM t LIMIT 5, 10", "SELECT a FROM t LIMIT 10 OFFSET 5;", "SELECT `a` FROM `t`", ";; SELECT 1", "SELECT 1;;", "; SELECT 1 ; ; SELECT 2 ;", "SELECT 1 SELECT 2", "SELECT a FROM t; garbage here; SELECT b FROM u",
 		"SELECT a FROM t WHERE; SELECT 1", "SHOW TABLES; DESCRIBE t; EXPLAIN SELECT 1; REPLACE INTO t (a) VALUES (1)", "SELECT 1; SELECT FROM; SELECT 'unterminated")
 	g := newSQLGen(c.rng.Fork())
 	for i := 0; i < n; i++ {
@@ -354,8 +363,15 @@ func runC07(c *runCtx) {
 	// batch calls: equal to the individual calls, failing at the first failing index
 	for round := 0; round < c.n(100, 2000) && len(batchAll) > 3; round++ {
 		k := 2 + c.rng.Intn(5)
+		if round%10 == 9 {
+			k = 150 + c.rng.Intn(150) // a long batch on the one parser the batch call reuses
+		}
 		qs := make([]string, k)
 		for i := range qs {
+			if k >= 150 {
+				qs[i] = longBatchItems[(round+i)%len(longBatchItems)]
+				continue
+			}
 			if c.rng.Chance(75) && len(batchGood) > 0 {
 				qs[i] = batchGood[c.rng.Intn(len(batchGood))]
 			} else {
